@@ -215,7 +215,8 @@ def run(chk):
         return rep
 
     b.run(on_violation)
-    large_collection(chk, nn, rng, 47011 if not thorough else 70001)
+    if not chk.skip_large("the 47 011-sequence collection"):
+        large_collection(chk, nn, rng, 47011 if not thorough else 70001)
 
 
 def large_collection(chk, nn, rng, n):
